@@ -225,6 +225,20 @@ macro_rules! c09_cfg {
                             vcheck!(matches!(r, Err(CoderError::Frontend(DefaultEncoderFrontendError::ImpossibleSymbol))), "C09/impossible_symbol_not_rejected/ans", "bounded sink: symbol {} -> {:?}", s, r);
                             continue;
                         }
+                        if stack.len() % 3 == 2 {
+                            // a temporary view appends the state's words to the sink: on a sink that is (nearly) full this
+                            // is a failed write like any other, and what was encoded before must still decode
+                            let failed = c.get_compressed().is_err();
+                            if failed {
+                                failures += 1;
+                                ctx.label("view_failed_on_full_sink");
+                            }
+                            let mut copy = $copy(&c);
+                            for &(mj, t) in stack.iter().rev() {
+                                let d = copy.decode_symbol(&models[mj]).unwrap_infallible();
+                                vcheck!(d == t, "C09/failed_write_corrupted_coder", "after get_compressed() on a bounded sink ({}), decoded {} instead of {}", if failed { "failed: sink full" } else { "succeeded" }, d, t);
+                            }
+                        }
                         match c.encode_symbol(s, &models[mi]) {
                             Ok(()) => stack.push((mi, s)),
                             Err(CoderError::Backend(_)) => {
